@@ -265,6 +265,29 @@ pub fn families(thorough: bool, seed: u64) -> FamilyResult {
         let case = BuildCase { spec: GraphSpec { fns, edges, batches: vec![] }, fail_pos: 0, mutation: None, labels: vec![], walks: vec![] };
         cases.push((1u64 << (l / 2).min(62), case, format!("two chains of {l} with same-level write conflicts, insertion order alternating per level")));
     }
+    // a reader above a 2-wide ladder without data access, plus several hundred edge-less
+    // readers of another type (more data-accessing functions than fit a byte counter)
+    for (layers, extra, top_first) in [(16usize, 260usize, true), (28, 300, true), (40, 300, true), (28, 300, false)] {
+        let n = 1 + 2 * layers + extra;
+        let mut fns: Vec<TestFn> = (0..n).map(|id| TestFn { id, reads: vec![], writes: vec![] }).collect();
+        // the top reader (type 0) and the ladder below it, and `extra` edge-less readers
+        // of type 1 inserted before or after them
+        let (top, base, readers) = if top_first { (0, 1, 1 + 2 * layers) } else { (extra, extra + 1, 0) };
+        for f in fns.iter_mut().skip(readers).take(extra) {
+            f.reads = vec![1];
+        }
+        fns[top].reads = vec![0];
+        let mut edges = vec![(top, base, Kind::Logic), (top, base + 1, Kind::Contains)];
+        for l in 0..layers - 1 {
+            for a in 0..2 {
+                for b in 0..2 {
+                    edges.push((base + 2 * l + a, base + 2 * (l + 1) + b, if (a + b) % 2 == 0 { Kind::Logic } else { Kind::Contains }));
+                }
+            }
+        }
+        let case = BuildCase { spec: GraphSpec { fns, edges, batches: vec![] }, fail_pos: 0, mutation: None, labels: vec![], walks: vec![] };
+        cases.push((1u64 << layers.min(62), case, format!("{extra} edge-less readers + one reader above a 2-wide ladder of {layers} layers without data access")));
+    }
     // a rejected call in the sequence: the multi-path region is declared, then an edge
     // from its last function back to a function that already has a predecessor is
     // requested (and rejected: it would close a cycle), then the graph is built
